@@ -74,7 +74,7 @@ def set_existing_field(cls, fieldname, vlevel, connected, set_reference, value_i
         value = None
     elif value_is_placeholder:
         value = "*"
-    elif not value_is_valid:
+    elif not value_is_valid and not (lookup == 2 and vlevel == 0):
         value = "a\tb"
     else:
         value = {0: "Zz", 1: name, 2: taken}[lookup]
